@@ -13,6 +13,9 @@ constexpr bool post_sqrt_hyp(fixed_t x, fixed_t r) { return r.v >= 0 && r.v < (1
 constexpr bool pre_c14_sqrtb(fixed_t x, fixed_t r) { return pre_sqrt_hyp(x) && post_sqrt_1ulp(x, r); }
 constexpr bool lem_c14_sqrt_bound(fixed_t x, fixed_t r) { return post_sqrt_hyp(x, r); }
 constexpr bool post_hypot(fixed_t a, fixed_t b, fixed_t r) { return r.v >= 0 && vf_finite(r) && ((a.v == 0 && b.v == 0) == (r.v == 0) || r.v == 0); }
+// cut-point lemma: the five calls reach the point after operand normalisation with the same (uhi, ulo); the ghost
+// observations are compared in the lemma's contract (spec/bind.py)
+inline bool lem_c14_cut(fixed_t a, fixed_t b) { (void)hypot(a, b); (void)hypot(b, a); (void)hypot(abs(a), abs(b)); (void)hypot(-a, b); (void)hypot(a, -b); return true; }
 inline bool lem_c14_swap(fixed_t a, fixed_t b) { return hypot(a, b) == hypot(b, a); }
 inline bool lem_c14_abs(fixed_t a, fixed_t b) { return hypot(a, b) == hypot(abs(a), abs(b)); }
 }
